@@ -1,5 +1,6 @@
 """C12 — JSON Pointer get/set resolve exactly per RFC 6901."""
 import copy
+import os
 import random
 
 from vflib import core, build
@@ -368,8 +369,12 @@ def run(tier, seed):
     selftest_more.test_refptr()
     bdir = build.build("asan")
     chk = core.Check(PID, tier, seed)
+    rd = core.record_dir(PID) if tier == "thorough" else None
     sh = core.parallel(shard_fn, seed=seed, tier=tier, exe=bdir + "/jcdrv", ntrees=16000 if tier == "quick" else 200000)
     chk.absorb(sh)
+    if rd:
+        os.environ.pop("VF_RECORD_DIR", None)
+        core.memcheck_recorded(chk, build.build("plain"), rd)
     chk.rule = ("trees with adversarial keys ('', '/', '~', '~0', '~1', '~01', 'a/b', 'm~n', '0', '01', '-', digits, '%s'), null members and null elements; for each tree the canonical pointer to EVERY node "
                 "plus dangling/malformed pointers through get/getf; 1-3 set/setf operations (replace, new member needing unescaping, index, len, '-', beyond the end, root, malformed) each followed by a full "
                 "pointer-annotated dump, a lookup of the same pointer and an ownership probe.  Oracle: RFC 6901 evaluator over the observed node identities. evaluations = commands; distinct = distinct scripts")
